@@ -659,6 +659,14 @@ fn property_urls(us: &[Url], inputs: &[String]) -> Option<String> {
                     return Some(format!("unicode_serialization of the origin of {:?} is {:?}, expected {:?}", inputs[i], un, ref_serialization(s2, &uh, *p2)));
                 }
                 for (what, text) in [("ascii", a), ("unicode", os[i].unicode_serialization())] {
+                    // the known IDNA classes on the domain of the origin (excluded by host_known_free in C16_rt):
+                    // F-C10-1 - the domain is not a ToASCII fixed point, neither serialization parses back;
+                    // F-C12-1 (F-C16-1 at this level) - the Unicode form has a label xn--..., it does not parse back
+                    if let Host::Domain(d) = h2 {
+                        if known_c10_long_host(d) || (what == "unicode" && known_c12_host(d)) {
+                            continue;
+                        }
+                    }
                     match Url::parse(&text) {
                         Ok(w) => {
                             if w.origin() != os[i] {
@@ -814,8 +822,77 @@ fn run_search(args: &Args) -> Report {
     rep
 }
 
+/// Known_C12 (F-C12-1) on the domain of an origin: some label of the text origin.rs displays begins with "xn--"
+fn known_c12_host(d: &str) -> bool {
+    let dd = d.to_string();
+    match std::panic::catch_unwind(move || idna::domain_to_unicode(&dd).0) {
+        Ok(t) => t.split('.').any(|l| l.starts_with("xn--")),
+        Err(_) => false,
+    }
+}
+/// Known_C10_long (F-C10-1) on the domain of an origin: a label xn-- followed by more than 2000 bytes
+fn known_c10_long_host(d: &str) -> bool {
+    d.split('.').any(|l| {
+        let b = l.as_bytes();
+        b.len() > 4 + 2000 && b[..4].eq_ignore_ascii_case(b"xn--")
+    })
+}
+
 fn run_known(_args: &Args) -> Report {
-    Report::new()
+    let mut rep = Report::new();
+    // F-C16-1 (F-C12-1 at the level of origins): the Unicode serialization of the origin of
+    // https://xn--xn--ss-ztda/ is https://xn--<U+02EF><U+02EF>ss, which Url::parse rejects
+    {
+        let r = std::panic::catch_unwind(|| {
+            let u = Url::parse("https://xn--xn--ss-ztda/").map_err(|e| format!("{}", e))?;
+            let o = u.origin();
+            let a = o.ascii_serialization();
+            let un = o.unicode_serialization();
+            let host = u.host_str().unwrap_or("").to_string();
+            Ok::<_, String>((
+                a.clone(),
+                un.clone(),
+                Url::parse(&a).map(|w| w.origin() == o).map_err(|e| format!("{}", e)),
+                Url::parse(&un).map(|w| w.origin() == o).map_err(|e| format!("{}", e)),
+                known_c12_host(&host),
+            ))
+        });
+        let (reproduces, observed) = match r {
+            Ok(Ok((a, un, ra, ru, k))) => (
+                a == "https://xn--xn--ss-ztda" && un == "https://xn--\u{2ef}\u{2ef}ss" && ra == Ok(true) && ru.is_err() && k,
+                format!("ascii {:?} -> same origin: {:?}; unicode {:?} -> same origin: {:?}; in class Known_C12: {}", a, ra, un, ru, k),
+            ),
+            Ok(Err(e)) => (false, format!("Url::parse(https://xn--xn--ss-ztda/) = Err({})", e)),
+            Err(_) => (false, "panic".into()),
+        };
+        rep.known.push(("F-C16-1".into(), reproduces, observed));
+    }
+    // F-C10-1 at the level of origins: neither serialization of the origin of http://<1000 ideographs>/ parses back
+    {
+        let r = std::panic::catch_unwind(|| {
+            let host: String = (0..1000u32).map(|i| char::from_u32(0x4E00 + 20 * i).unwrap()).collect();
+            let u = Url::parse(&format!("http://{}/", host)).map_err(|e| format!("{}", e))?;
+            let o = u.origin();
+            let a = o.ascii_serialization();
+            let un = o.unicode_serialization();
+            Ok::<_, String>((
+                a.len(),
+                Url::parse(&a).map(|w| w.origin() == o).map_err(|e| format!("{}", e)),
+                Url::parse(&un).map(|w| w.origin() == o).map_err(|e| format!("{}", e)),
+                known_c10_long_host(u.host_str().unwrap_or("")),
+            ))
+        });
+        let (reproduces, observed) = match r {
+            Ok(Ok((n, ra, ru, k))) => (
+                ra.is_err() && k,
+                format!("origin of http://<1000 ideographs>/: ascii serialization of {} bytes -> same origin: {:?}; unicode serialization -> same origin: {:?}; in class Known_C10_long: {}", n, ra, ru, k),
+            ),
+            Ok(Err(e)) => (false, format!("Url::parse(http://<1000 ideographs>/) = Err({})", e)),
+            Err(_) => (false, "panic".into()),
+        };
+        rep.known.push(("F-C10-1".into(), reproduces, observed));
+    }
+    rep
 }
 
 fn run_replay(args: &Args) -> Report {
